@@ -357,6 +357,110 @@ def classify(reaction) -> dict:
     }
 
 
+# ---------------------------------------------------------------------------- synthetic reactions
+# final-state particle types: (spin, mass)
+SYN_TYPES = {
+    "nu": (Fraction(1, 2), 0.0),   # massless spin 1/2
+    "gam": (Fraction(1), 0.0),     # massless spin 1 (axis-angle: known finding)
+    "V": (Fraction(1), 0.78),      # massive spin 1
+    "f": (Fraction(1, 2), 0.94),   # massive spin 1/2
+    "S": (Fraction(0), 0.14),      # spin 0
+}
+
+
+def _projections(spin: Fraction, mass: float):
+    s2 = int(2 * spin)
+    if mass == 0.0 and s2 > 0:
+        return [-spin, spin]
+    return [-spin + i for i in range(s2 + 1)]
+
+
+def synthetic_topologies():
+    """single topologies used for the placement sweep: the three 3-body labelings (which final
+    state is the spectator) and two 4-body shapes"""
+    from qrules.topology import create_isobar_topologies
+
+    base = create_isobar_topologies(3)[0]  # edge 0 spectator, resonance -> 1, 2
+    out = {"3:spect0": base}
+    out["3:spect1"] = base.relabel_edges({0: 1, 1: 0})
+    out["3:spect2"] = base.relabel_edges({0: 2, 2: 0})
+    for k, t in enumerate(create_isobar_topologies(4)):
+        out[f"4:shape{k}"] = t
+    return out
+
+
+def synthetic_reaction(topology, types):
+    """hand-built single-topology reaction: every helicity combination with |l1 - l2| <= J at every
+    node (so every helicity set is complete); resonance spins are the smallest that allow it"""
+    import itertools
+
+    from qrules.particle import Particle
+    from qrules.quantum_numbers import InteractionProperties
+    from qrules.topology import FrozenTransition
+    from qrules.transition import ReactionInfo, State
+
+    (root,) = topology.incoming_edge_ids
+    spin, mass = {}, {}
+    for i, t in enumerate(types):
+        spin[i], mass[i] = SYN_TYPES[t]
+
+    def fill(edge):
+        node = topology.edges[edge].ending_node_id
+        if node is None:
+            return int(2 * spin[edge])
+        kids = sorted(topology.get_edge_ids_outgoing_from_node(node))
+        tot = [fill(k) for k in kids]
+        if sum(tot) % 2:
+            spin[edge] = Fraction(1, 2)
+        else:
+            spin[edge] = Fraction(0) if all(spin[k] == 0 for k in kids) else Fraction(1)
+        mass[edge] = sum(mass[k] for k in kids) + (3.0 if edge == root else 0.3)
+        return int(2 * spin[edge])
+
+    fill(root)
+    particles = {}
+    for e in topology.edges:
+        name = f"{types[e]}{e}" if e in range(len(types)) else ("A" if e == root else f"R{e}")
+        particles[e] = Particle(name=name, pid=1000 + e, spin=float(spin[e]), mass=mass[e], width=0.0)
+    ids = sorted(topology.edges)
+    pools = [_projections(spin[e], mass[e]) for e in ids]
+    transitions = []
+    for combo in itertools.product(*pools):
+        lam = dict(zip(ids, combo))
+        ok = True
+        for node in topology.nodes:
+            (parent,) = topology.get_edge_ids_ingoing_to_node(node)
+            c1, c2 = sorted(topology.get_edge_ids_outgoing_from_node(node))
+            if abs(lam[c1] - lam[c2]) > spin[parent]:
+                ok = False
+                break
+        if ok:
+            states = {e: State(particles[e], float(lam[e])) for e in ids}
+            transitions.append(FrozenTransition(topology, states, {n: InteractionProperties() for n in topology.nodes}))
+    return ReactionInfo(transitions, formalism="helicity")
+
+
+def synthetic_cases():
+    """(name, topology key, types, is_mixed). `mixed` = exactly one massless spin-1/2 and one massive
+    spin-1 particle, the rest spin 0: every ordered placement on every topology. 3-body additionally:
+    every assignment of the five types to the three slots."""
+    import itertools
+
+    cases = []
+    seen = set()
+    for key, n in (("3:spect0", 3), ("3:spect1", 3), ("3:spect2", 3), ("4:shape0", 4), ("4:shape1", 4)):
+        for a, b in itertools.permutations(range(n), 2):
+            types = ["S"] * n
+            types[a], types[b] = "nu", "V"
+            cases.append((f"syn{key}:" + ",".join(types), key, tuple(types), True))
+            seen.add((key, tuple(types)))
+    for key in ("3:spect0", "3:spect1", "3:spect2"):
+        for types in itertools.product(SYN_TYPES, repeat=3):
+            if (key, types) not in seen:
+                cases.append((f"syn{key}:" + ",".join(types), key, types, False))
+    return cases
+
+
 ALIGNMENTS = ["none", "axis", "dpd1", "dpd2", "dpd3"]
 
 
@@ -382,6 +486,20 @@ def formulate(reaction, align: str, robust_masses: bool = True):
     return builder.formulate(), reaction
 
 
+def formulate_amplitude_only(reaction, align: str):
+    """`SpinAlignment.formulate_amplitude(reaction)` — the alignment code alone, without the builder"""
+    from ampform.helicity.align import NoAlignment
+    from ampform.helicity.align.axisangle import AxisAngleAlignment
+    from ampform.helicity.align.dpd import DalitzPlotDecomposition, relabel_edge_ids
+
+    if align.startswith("dpd"):
+        reaction = relabel_edge_ids(reaction)
+        return DalitzPlotDecomposition(reference_subsystem=int(align[3])).formulate_amplitude(reaction), reaction
+    if align == "axis":
+        return AxisAngleAlignment().formulate_amplitude(reaction), reaction
+    return NoAlignment().formulate_amplitude(reaction), reaction
+
+
 # ============================================================================ T2b: skeleton extraction
 
 GREEK = ("lambda", "mu", "nu", "xi", "alpha", "beta", "gamma")
@@ -391,8 +509,10 @@ class ExtractionError(Exception):
     pass
 
 
-def extract_skeleton(model, reaction, align: str) -> list[str]:
-    """canonical skeleton lines of the REAL `model.intensity` (same format as the Lean driver)"""
+def extract_skeleton(model, reaction, align: str, amplitude_only: bool = False) -> list[str]:
+    """canonical skeleton lines of the REAL `model.intensity` (same format as the Lean driver);
+    with `amplitude_only`, `model` is the expression returned by `SpinAlignment.formulate_amplitude`
+    and the `outer` lines (which come from the builder) are left out"""
     import sympy as sp
     from sympy.physics.quantum.spin import WignerD
 
@@ -443,58 +563,62 @@ def extract_skeleton(model, reaction, align: str) -> list[str]:
             out.append(int(d))
         return out
 
+    def amplitude_lines(amp):
+        if isinstance(amp, PoolSum):
+            inner, sums = amp.expression, list(amp.indices)
+        else:
+            inner, sums = amp, []
+        lines_amp, factors = None, []
+        for f in sp.Mul.make_args(inner):
+            if isinstance(f, sp.Indexed):
+                if lines_amp is not None:
+                    raise ExtractionError("more than one amplitude symbol in the summand")
+                entries = []
+                for idx in f.indices:
+                    if idx in var:
+                        entries.append("+" + var[idx])
+                    elif isinstance(idx, sp.Mul) and len(idx.args) == 2 and idx.args[0] == -1 and idx.args[1] in var:
+                        entries.append("-" + var[idx.args[1]])
+                    else:
+                        raise ExtractionError(f"unexpected amplitude index {idx}")
+                lines_amp = "amp " + " ".join(entries)
+            elif isinstance(f, WignerD):
+                j, m, mp, a, b, g = f.args
+                if m not in var or mp not in var:
+                    raise ExtractionError(f"Wigner factor with unexpected indices: {f}")
+                if (a, b, g) not in angle:
+                    raise ExtractionError(f"Wigner factor with unexpected angles: {f}")
+                j2 = 2 * sp.Rational(j)
+                if not j2.is_Integer:
+                    raise ExtractionError(f"spin {j}")
+                factors.append(f"factor {int(j2)} {var[m]} {var[mp]} {angle[(a, b, g)]}")
+            elif f == 1:
+                continue
+            else:
+                raise ExtractionError(f"unexpected factor {sp.srepr(f)[:160]}")
+        if lines_amp is None:
+            raise ExtractionError("no amplitude symbol in the summand")
+        sum_lines = []
+        for sym, values in sums:
+            if sym not in var:
+                raise ExtractionError(f"unexpected summation index {sym}")
+            sum_lines.append(f"sum {var[sym]} " + " ".join(map(str, pool(values))))
+        return [lines_amp, *factors, *sum_lines]
+
+    if amplitude_only:
+        return canon(amplitude_lines(model))
     top = model.intensity
     if not isinstance(top, PoolSum):
         raise ExtractionError(f"intensity is a {type(top).__name__}, not a PoolSum")
     body = top.expression
     if not (isinstance(body, sp.Pow) and body.exp == 2 and isinstance(body.base, sp.Abs)):
         raise ExtractionError(f"intensity summand is not Abs(...)**2: {sp.srepr(body)[:120]}")
-    amp = body.base.args[0]
-    if isinstance(amp, PoolSum):
-        inner, sums = amp.expression, list(amp.indices)
-    else:
-        inner, sums = amp, []
-    lines_amp, factors = None, []
-    for f in sp.Mul.make_args(inner):
-        if isinstance(f, sp.Indexed):
-            if lines_amp is not None:
-                raise ExtractionError("more than one amplitude symbol in the summand")
-            entries = []
-            for idx in f.indices:
-                if idx in var:
-                    entries.append("+" + var[idx])
-                elif isinstance(idx, sp.Mul) and len(idx.args) == 2 and idx.args[0] == -1 and idx.args[1] in var:
-                    entries.append("-" + var[idx.args[1]])
-                else:
-                    raise ExtractionError(f"unexpected amplitude index {idx}")
-            lines_amp = "amp " + " ".join(entries)
-        elif isinstance(f, WignerD):
-            j, m, mp, a, b, g = f.args
-            if m not in var or mp not in var:
-                raise ExtractionError(f"Wigner factor with unexpected indices: {f}")
-            if (a, b, g) not in angle:
-                raise ExtractionError(f"Wigner factor with unexpected angles: {f}")
-            j2 = 2 * sp.Rational(j)
-            if not j2.is_Integer:
-                raise ExtractionError(f"spin {j}")
-            factors.append(f"factor {int(j2)} {var[m]} {var[mp]} {angle[(a, b, g)]}")
-        elif f == 1:
-            continue
-        else:
-            raise ExtractionError(f"unexpected factor {sp.srepr(f)[:160]}")
-    if lines_amp is None:
-        raise ExtractionError("no amplitude symbol in the summand")
-    sum_lines = []
-    for sym, values in sums:
-        if sym not in var:
-            raise ExtractionError(f"unexpected summation index {sym}")
-        sum_lines.append(f"sum {var[sym]} " + " ".join(map(str, pool(values))))
     outer_lines = []
     for sym, values in top.indices:
         if sym not in var:
             raise ExtractionError(f"unexpected outer index {sym}")
         outer_lines.append(f"outer {var[sym]} " + " ".join(map(str, sorted(pool(values)))))
-    return canon([lines_amp, *factors, *sum_lines, *outer_lines])
+    return canon([*amplitude_lines(body.base.args[0]), *outer_lines])
 
 
 def canon(lines: list[str]) -> list[str]:
@@ -515,7 +639,7 @@ def skeleton_request(reaction, align: str, variant: int) -> str:
 
 # ============================================================================ T2a: create_spin_range
 
-def real_range(value, flag):
+def real_range(value, flag, scribble: bool = False):
     from ampform.helicity.align._spin import create_spin_range
 
     try:
@@ -530,6 +654,8 @@ def real_range(value, flag):
         if d != int(d):
             return f"non-half-integer:{x!r}"
         out.append(int(d))
+    if scribble:
+        res.append(99.0)  # a caller may do what it likes with the returned list
     return " ".join(["ok", *map(str, out)])
 
 
@@ -723,6 +849,14 @@ class C05Property:
         chk.info("source_blobs", common.source_blob_hashes(SOURCES))
         thorough = tier == "thorough"
 
+        import time as _time
+        timing = {}
+        _t = [_time.time()]
+
+        def lap(name):
+            timing[name] = round(_time.time() - _t[0], 1)
+            _t[0] = _time.time()
+
         # ---- T3: regenerate the Wigner tables
         try:
             winfo = regenerate_wigner()
@@ -741,6 +875,7 @@ class C05Property:
         else:
             chk.coverage["discharged"] += 1
 
+        lap("wigner tables + D factorisation")
         # ---- proofs
         res = common.prove(PROP_ID, PROP_MODULES, timeout=2400)
         chk.record_proof(res, "cd lean && lake build " + " ".join(PROP_MODULES) + f" && lake env lean Ampverif/Audit/{PROP_ID}.lean")
@@ -749,6 +884,7 @@ class C05Property:
         if thorough and res["build_ok"]:
             self.leanchecker(chk)
 
+        lap("lake build + audit")
         # ---- variant
         variant = self.infer_variant()
         chk.info("inferred_variant", {"checksZeroMember": bool(variant)})
@@ -774,6 +910,15 @@ class C05Property:
         for s2, flag, forms in range_inputs:
             requests.append(f"range {variant} {s2} {int(flag)}")
             plan.append(("range", s2, flag, forms))
+
+        # history stream: create_spin_range must be a pure function of its arguments — interleaved
+        # flags, repeated spins, and callers that modify the returned list
+        hist_rng = common.rng_for(PROP_ID, seed, "range-history")
+        for _ in range(160):
+            s2 = hist_rng.randrange(0, 9)
+            flag = hist_rng.random() < 0.5
+            requests.append(f"range {variant} {s2} {int(flag)}")
+            plan.append(("history", s2, flag, hist_rng.random() < 0.3))
 
         cases = []
         for case in CASES:
@@ -814,6 +959,38 @@ class C05Property:
                     requests.append(skeleton_request(rr, align, variant))
                     plan.append(("skel", key))
 
+        lap("formulate + extract corpus skeletons")
+        # synthetic placement sweep: amplitude-level skeletons (cheap: SpinAlignment.formulate_amplitude only)
+        syn_tops = synthetic_topologies()
+        syn_cases = synthetic_cases()
+        syn_reactions = {}
+        syn_compared = 0
+        for name, key, types, mixed in syn_cases:
+            try:
+                reaction = synthetic_reaction(syn_tops[key], types)
+            except Exception as e:  # noqa: BLE001
+                raise common.InfraError(f"synthetic reaction {name} cannot be built: {e!r}") from e
+            syn_reactions[name] = (reaction, classify(reaction), key, types, mixed)
+            aligns = ["axis"] + (["dpd1", "dpd2", "dpd3"] if key.startswith("3") else [])
+            for align in aligns:
+                k = (name, align)
+                try:
+                    expr, rr = formulate_amplitude_only(reaction, align)
+                    skel_real[k] = extract_skeleton(expr, rr, align, amplitude_only=True)
+                except ExtractionError as e:
+                    skel_real[k] = [f"unextractable: {e}"]
+                    rr = reaction
+                except Exception as e:  # noqa: BLE001
+                    formulate_errors[k] = "".join(traceback.format_exception_only(type(e), e))[-400:]
+                    skel_real[k] = ["error"]
+                    rr = reaction
+                    if align.startswith("dpd"):
+                        continue  # no relabelled reaction to describe to the model
+                requests.append(skeleton_request(rr, align, variant))
+                plan.append(("skel", k, True))
+                syn_compared += 1
+
+        lap("synthetic skeletons")
         try:
             out = common.lean_run(DRIVER, "\n".join(requests) + "\n")
         except common.LeanRunError as e:
@@ -847,13 +1024,32 @@ class C05Property:
                              "expected": expected_range(s2, flag)}))
                 if (s2, flag) in ((1, True), (2, True)):
                     chk.sample({"create_spin_range": f"{s2}/2", "no_zero_spin": flag, "real": real_range(s2 / 2, flag), "lean": lean})
+            elif item[0] == "history":
+                _, s2, flag, scribble = item
+                lean = lines[pos].strip()
+                pos += 1
+                real = real_range(s2 / 2, flag, scribble)
+                chk.count(("range-history", s2, flag) if s2 > 0 else None)
+                if real != lean:
+                    range_mismatch += 1
+                    if range_mismatch <= 3:
+                        chk.broken_correspondence("create_spin_range", {"spin": f"{s2}/2", "flag": flag, "stream": "history", "real": real, "lean": lean})
+                if real != expected_range(s2, flag):
+                    failing.append((
+                        {"class": "create_spin_range deviates from -s..s", "spin": f"{s2}/2", "flag": flag},
+                        {"input": {"call": f"create_spin_range({s2 / 2!r}, no_zero_spin={flag})",
+                                   "history": "after earlier calls of create_spin_range / formulate in the same process"},
+                         "observed": real, "expected": expected_range(s2, flag)}))
             else:
                 key = item[1]
+                amplitude_only = len(item) > 2
                 block = []
                 while pos < len(lines) and lines[pos].strip() != "done":
                     block.append(lines[pos].strip())
                     pos += 1
                 pos += 1
+                if amplitude_only:
+                    block = [l for l in block if not l.startswith("outer ")]
                 lean = canon(block)
                 real = skel_real[key]
                 chk.count(("skeleton", *key))
@@ -865,8 +1061,13 @@ class C05Property:
                     chk.sample({"skeleton": list(key), "lines": real[:8]})
         chk.info("range_correspondence", {"requests": len(range_inputs), "results": range_dist, "mismatches": range_mismatch,
                                           "domain": "2s in -6..20 x flag, passed as float / Fraction / int"})
-        chk.info("skeleton_correspondence", {"compared": len(skel_real), "mismatches": skel_mismatch,
-                                             "reactions": sorted({k[0] for k in skel_real})})
+        chk.info("skeleton_correspondence", {
+            "compared": len(skel_real), "mismatches": skel_mismatch,
+            "corpus_reactions": sorted({k[0] for k in skel_real if not k[0].startswith("syn")}),
+            "synthetic": {"amplitude_level_skeletons": syn_compared, "reactions": len(syn_cases),
+                          "mixed_placements(one massless spin-1/2 vs one massive spin-1)": sum(1 for c in syn_cases if c[3]),
+                          "types": {k: [str(v[0]), v[1]] for k, v in SYN_TYPES.items()},
+                          "topologies": {k: tree_string(t) for k, t in syn_tops.items()}}})
 
         # ---- formulation succeeds for every final-state spin and mass
         for key, err in formulate_errors.items():
@@ -875,6 +1076,7 @@ class C05Property:
                 {"input": {"reaction": key[0], "alignment": key[1], "corpus": str(CORPUS)}, "observed": err,
                  "expected": "a HelicityModel"}))
 
+        lap("lean driver + comparison")
         # ---- numeric oracle
         rng = common.rng_for(PROP_ID, seed, "oracle")
         n_events = (12 if thorough else 4) * (2 if chk.broken else 1)
@@ -883,15 +1085,36 @@ class C05Property:
         # a reaction whose skeleton disagreed is searched numerically whatever the tier
         forced = {b["detail"]["reaction"] for b in chk.broken
                   if b.get("what") == "alignment skeleton" and isinstance(b.get("detail"), dict)}
+        jobs = []
         for case, reaction, cls in cases:
             if case["numeric"] == "thorough" and not thorough and case["name"] not in forced:
                 continue
+            jobs.append((case, reaction, cls))
+        # synthetic placements: a seeded subset in the quick tier, all mixed placements in the thorough tier
+        pick_rng = common.rng_for(PROP_ID, seed, "synthetic-subset")
+        mixed3 = [n for n, (_, _, key, _, mixed) in syn_reactions.items() if mixed and key.startswith("3")]
+        mixed4 = [n for n, (_, _, key, _, mixed) in syn_reactions.items() if mixed and key.startswith("4")]
+        general = [n for n, (_, c, key, _, mixed) in syn_reactions.items()
+                   if not mixed and c["complete_helicity_sets"] and c["single_topology"]]
+        if thorough:
+            chosen = mixed3 + pick_rng.sample(mixed4, 2) + pick_rng.sample(general, 10)
+        else:
+            chosen = pick_rng.sample(mixed3, 3)
+        chosen += [n for n in sorted(forced) if n in syn_reactions and n not in chosen][:4]
+        for n in chosen:
+            reaction, cls, key, types, _ = syn_reactions[n]
+            jobs.append(({"name": n, "file": None, "synthetic": {"topology": tree_string(syn_tops[key]), "types": list(types),
+                                                               "how": "tools.props.C05.synthetic_reaction(synthetic_topologies()[key], types)"}},
+                         reaction, cls))
+        for case, reaction, cls in jobs:
             entry = {"reaction": case["name"], **{k: cls[k] for k in ("complete_helicity_sets", "massless_final", "spins2")}}
             if not cls["single_topology"] or not cls["complete_helicity_sets"]:
                 entry["skipped"] = "outside the hypothesis (one topology, complete helicity sets)"
                 numeric_log.append(entry)
                 continue
+            _tc = _time.time()
             results, _ = numeric_case(case, reaction, rng, n_events)
+            entry["seconds"] = round(_time.time() - _tc, 1)
             ref = results.get("none", {})
             if "values" not in ref:
                 failing.append(({"class": "the unaligned model cannot be evaluated"},
@@ -922,7 +1145,9 @@ class C05Property:
                     continue
                 i = int(np.argmax(bad))
                 replay = {
-                    "input": {"reaction": case["name"], "corpus_file": f"corpus/C05/{case['file']}.json",
+                    "input": {"reaction": case["name"],
+                              "corpus_file": f"corpus/C05/{case['file']}.json" if case.get("file") else None,
+                              "synthetic": case.get("synthetic"),
                               "substitution": case.get("sub"), "alignment": align, "event_index": i,
                               "seed": seed, "tier": tier},
                     "observed": (float(val[i]) if np.isfinite(val[i]) else repr(float(val[i]))), "expected": float(refv[i]),
@@ -944,12 +1169,28 @@ class C05Property:
                 chk.sample({"numeric": case["name"], "unaligned": [float(x) for x in refv[:2]],
                             "max_relative_difference": entry["max_rel"]})
         chk.info("numeric_oracle", numeric_log)
+        lap("numeric oracle")
+        chk.info("timing_s", timing)
+        # re-probe create_spin_range after all the formulations above (both flags interleaved)
+        for s2 in range(0, 9):
+            for flag in (False, True, False):
+                real = real_range(s2 / 2, flag)
+                chk.count(None)
+                if real != expected_range(s2, flag):
+                    failing.append((
+                        {"class": "create_spin_range deviates from -s..s", "spin": f"{s2}/2", "flag": flag},
+                        {"input": {"call": f"create_spin_range({s2 / 2!r}, no_zero_spin={flag})",
+                                   "history": "after formulating the aligned models of this run"},
+                         "observed": real, "expected": expected_range(s2, flag)}))
         if unjudged:
             chk.info("unjudged_new_findings", unjudged)
             chk.note("new finding (not judged, see notes/findings_C05.md): " + DEEP_MASSLESS_CLASS)
         chk.info("input_distribution", {
             "range": "exhaustive 2s = 0..20 x flag (x argument types), malformed: 2s = -6..-1",
-            "skeleton": "every corpus case x {none, axis, dpd1..3 (3-body)}",
+            "skeleton": "every corpus case x {none, axis, dpd1..3 (3-body)} on model.intensity; 399 synthetic reactions "
+                        "(all 5^3 type assignments x 3 spectator choices; all ordered placements of one massless spin-1/2 "
+                        "vs one massive spin-1 on 3 three-body and 2 four-body topologies) x {axis, dpd1..3} on formulate_amplitude",
+            "numeric_synthetic": [c["name"] for c, _, _ in jobs if c["name"].startswith("syn")],
             "numeric": f"{n_events} events per reaction, random complex couplings, one PRNG stream ({PROP_ID}:{seed}:oracle)",
         })
 
